@@ -49,6 +49,7 @@ def build(r):
     q.tables = {'t': (HOME[t], t)}
     q.on_conj = []
     q.on_has_or = False
+    q.u_join = None
     if q.shape == 't-u-m':
         u = r.choice(['t2', 't3'])
         on_extra = ''
@@ -60,7 +61,10 @@ def build(r):
             on_extra = ' OR u.a = 9002'
             q.on_has_or = True
             q.on_conj.append({'kind': 'on-or-const', 'consts': [9002], 'table': 'u', 'text': 'u.a = 9002'})
-        frm += f' {r.choice(["JOIN", "LEFT JOIN"])} {HOME[u]}.{u} AS u ON t.id = u.id{on_extra}'
+        # every spelling of the join kinds the grammar reads; ON filters / key lists may be pushed for inner and left joins only
+        q.u_join = r.choice(['JOIN', 'LEFT JOIN', 'JOIN', 'LEFT JOIN', 'INNER JOIN', 'LEFT OUTER JOIN', 'RIGHT JOIN',
+                             'FULL JOIN', 'FULL OUTER JOIN', 'OUTER JOIN'])
+        frm += f' {q.u_join} {HOME[u]}.{u} AS u ON t.id = u.id{on_extra}'
         q.tables['u'] = (HOME[u], u)
     q.columns_map = None
     on = ''
@@ -224,14 +228,20 @@ def judge(q, plan):
         falias = str(f.query.from_table.alias.parts[-1]).lower() if getattr(f.query.from_table, 'alias', None) is not None else None
         for cj in conjuncts(fw):
             cs = consts_in(cj)
+            keeps_unmatched_right = q.u_join in ('RIGHT JOIN', 'RIGHT OUTER JOIN', 'FULL JOIN', 'FULL OUTER JOIN', 'OUTER JOIN')
             if type(cj).__name__ == 'BinaryOperation' and cj.op.lower() == 'in' and type(cj.args[1]).__name__ == 'Parameter':
                 # semi-join restriction: only sound when the ON clause is a conjunction
                 if q.on_has_or and (integ, ftab) == q.tables.get('u'):
                     out.append(({'cond': 'semi-join-filter-although-on-has-or'}, {'fetch': repr(f)[:200]}))
+                elif keeps_unmatched_right and (integ, ftab) == q.tables.get('u'):
+                    out.append(({'cond': 'semi-join-filter-under-right-or-full-join', 'join': q.u_join}, {'fetch': repr(f)[:200]}))
                 continue
             on_owner = [c for c in q.on_conj if set(c['consts']) & cs]
             if on_owner:
                 c = on_owner[0]
+                if keeps_unmatched_right:
+                    out.append(({'cond': 'on-clause-filter-pushed-under-right-or-full-join', 'join': q.u_join}, {'fetch': repr(f)[:200]}))
+                    continue
                 if c['kind'] == 'on-or-const':
                     out.append(({'cond': 'on-clause-filter-under-or-pushed-into-fetch'}, {'fetch': repr(f)[:200]}))
                 elif q.tables[c['table']] != (integ, ftab):
